@@ -835,3 +835,46 @@ mod unit_tests {
         );
     }
 }
+
+// Verification hook H1 (only compiled with `--cfg rustfft_verif`): report recipes and cache keys as canonical text. Add-only.
+#[cfg(rustfft_verif)]
+impl Recipe {
+    pub(crate) fn verif_text(&self) -> String {
+        match self {
+            Recipe::Dft(len) => format!("(Dft {})", len),
+            Recipe::MixedRadix { left_fft, right_fft } => {
+                format!("(MixedRadix {} {})", left_fft.verif_text(), right_fft.verif_text())
+            }
+            Recipe::GoodThomasAlgorithm { left_fft, right_fft } => {
+                format!("(GoodThomas {} {})", left_fft.verif_text(), right_fft.verif_text())
+            }
+            Recipe::MixedRadixSmall { left_fft, right_fft } => {
+                format!("(MixedRadixSmall {} {})", left_fft.verif_text(), right_fft.verif_text())
+            }
+            Recipe::GoodThomasAlgorithmSmall { left_fft, right_fft } => {
+                format!("(GoodThomasSmall {} {})", left_fft.verif_text(), right_fft.verif_text())
+            }
+            Recipe::RadersAlgorithm { inner_fft } => format!("(Raders {})", inner_fft.verif_text()),
+            Recipe::BluesteinsAlgorithm { len, inner_fft } => {
+                format!("(Bluesteins {} {})", len, inner_fft.verif_text())
+            }
+            Recipe::Radix4 { k, base_fft } => format!("(Radix4 {} {})", k, base_fft.verif_text()),
+            Recipe::PrimeButterfly { len } => format!("(PrimeButterfly {})", len),
+            other => format!("(Butterfly {})", other.len()),
+        }
+    }
+}
+#[cfg(rustfft_verif)]
+impl<T: FftNum> FftPlannerSse<T> {
+    /// The recipe this planner designs for `len`, as canonical text
+    pub fn verif_recipe(&mut self, len: usize) -> String {
+        self.design_fft_for_len(len).verif_text()
+    }
+    /// Sorted keys of the (forward, inverse) instance caches and of the recipe cache
+    pub fn verif_cache_keys(&self) -> (Vec<usize>, Vec<usize>, Vec<usize>) {
+        let (f, i) = self.algorithm_cache.verif_keys();
+        let mut r: Vec<usize> = self.recipe_cache.keys().copied().collect();
+        r.sort();
+        (f, i, r)
+    }
+}
